@@ -2,7 +2,7 @@
 CONSTANTS NT = 3  NS = 6  PipeNames = {"s"}  NRes = 3
           MaxRecs = 1000000  MaxSets = 1000000  MaxArgs = 3  MaxFlush = 1000000  MaxNull = 1000000  LgSet = {1, 2, 3}
           MaxScope = 1000000  MaxNest = 3
-          NSev = 6  NBody = 20  NTs = 20  NId = 5  NFl = 2  NAK = 12  NAV = 20  MaxMap = 12  NEv = 10  NName = 5
+          NSev = 6  NBody = 20  NTs = 20  NId = 5  NFl = 3  NAK = 12  NAV = 20  MaxMap = 12  NEv = 10  NName = 5
           GenDepth = 0  Hist = FALSE
           Dev = {"log-record-aliases-caller-buffers", "eventid-without-name-crashes"}
 INIT TInit
